@@ -136,6 +136,11 @@ func RoundTrip(e *core.Env, c *fgen.Case, data []byte, wsched, rsched, dsched *s
 		return
 	}
 
+	if want, got := effectiveFilter(c.Filter, c.Version), effectiveFilter(f2, c.Version); want != got {
+		e.Fail("params-not-reproduced", attrs, "%s: the filter rebuilt from (%s, %s) has effective parameters %+v, the encoder used %+v", c.Desc, name, gen.Show(dict), got, want)
+		return
+	}
+
 	src := simio.NewReader(encoded, rsched)
 	src.EOFWithData = eofWithData
 	src.ZeroReads = zeroReads
@@ -158,6 +163,57 @@ func RoundTrip(e *core.Env, c *fgen.Case, data []byte, wsched, rsched, dsched *s
 	if c.Kind == "CCITT" && len(data) > 0 {
 		e.Probe(fmt.Sprintf("ccitt ok K=%s EOL=%s Align=%s EOB=%s Rows=%s", attrs["K"], attrs["EndOfLine"], attrs["ByteAlign"], attrs["EndOfBlock"], attrs["Rows"]))
 	}
+}
+
+// effectiveFilter maps a filter value to its effective parameters (defaults
+// filled in, shorthands resolved), so that the filter handed to Encode can be
+// compared with the one MakeFilter rebuilds from the emitted dictionary.
+func effectiveFilter(f pdf.Filter, v pdf.Version) any {
+	norm := func(p pdf.FlatePredictor, colors, bpc, cols int) [4]int {
+		if p == 0 {
+			p = 1
+		}
+		if p == 1 {
+			return [4]int{1, 0, 0, 0}
+		}
+		if colors == 0 {
+			colors = 1
+		}
+		if bpc == 0 {
+			bpc = 8
+		}
+		if cols == 0 {
+			cols = 1
+		}
+		return [4]int{int(p), colors, bpc, cols}
+	}
+	switch x := f.(type) {
+	case pdf.FilterFlate:
+		return struct {
+			Kind string
+			P    [4]int
+		}{"Flate", norm(x.Predictor, x.Colors, x.BitsPerComponent, x.Columns)}
+	case pdf.FilterLZW:
+		return struct {
+			Kind     string
+			P        [4]int
+			OffByOne bool
+		}{"LZW", norm(x.Predictor, x.Colors, x.BitsPerComponent, x.Columns), x.OffByOne}
+	case pdf.FilterCompress:
+		if v >= pdf.V1_2 {
+			return effectiveFilter(pdf.FilterFlate(x), v)
+		}
+		return effectiveFilter(pdf.FilterLZW{Predictor: x.Predictor, Colors: x.Colors, BitsPerComponent: x.BitsPerComponent, Columns: x.Columns, OffByOne: true}, v)
+	case pdf.FilterCCITTFax:
+		if x.K < 0 {
+			x.K = -1
+		}
+		if x.Columns == 0 {
+			x.Columns = 1728
+		}
+		return x
+	}
+	return fmt.Sprintf("%T", f)
 }
 
 // effective normalises a parameter dictionary to its effective meaning:
